@@ -148,6 +148,8 @@ fn skeleton() -> Document {
 struct Site {
     obj: u32,
     path: Vec<String>,
+    /// the last path element is a key the dictionary does NOT have: shapes are inserted
+    insert: bool,
 }
 
 fn collect_sites(o: &Object, obj: u32, path: &mut Vec<String>, out: &mut Vec<Site>) {
@@ -155,7 +157,7 @@ fn collect_sites(o: &Object, obj: u32, path: &mut Vec<String>, out: &mut Vec<Sit
         Object::Dictionary(dd) => {
             for (k, v) in dd.iter() {
                 path.push(format!("/{}", String::from_utf8_lossy(k)));
-                out.push(Site { obj, path: path.clone() });
+                out.push(Site { obj, path: path.clone(), insert: false });
                 collect_sites(v, obj, path, out);
                 path.pop();
             }
@@ -163,7 +165,7 @@ fn collect_sites(o: &Object, obj: u32, path: &mut Vec<String>, out: &mut Vec<Sit
         Object::Stream(s) => {
             for (k, v) in s.dict.iter() {
                 path.push(format!("/{}", String::from_utf8_lossy(k)));
-                out.push(Site { obj, path: path.clone() });
+                out.push(Site { obj, path: path.clone(), insert: false });
                 collect_sites(v, obj, path, out);
                 path.pop();
             }
@@ -171,7 +173,7 @@ fn collect_sites(o: &Object, obj: u32, path: &mut Vec<String>, out: &mut Vec<Sit
         Object::Array(a) => {
             for (i, v) in a.iter().enumerate().take(6) {
                 path.push(format!("[{}]", i));
-                out.push(Site { obj, path: path.clone() });
+                out.push(Site { obj, path: path.clone(), insert: false });
                 collect_sites(v, obj, path, out);
                 path.pop();
             }
@@ -188,8 +190,28 @@ fn all_sites(doc: &Document) -> Vec<Site> {
             continue;
         }
         // the whole object itself is a site too
-        out.push(Site { obj: id.0, path: vec![] });
+        out.push(Site { obj: id.0, path: vec![], insert: false });
         collect_sites(o, id.0, &mut vec![], &mut out);
+    }
+    // keys the query code reads, inserted where a top-level dictionary lacks them
+    const ABSENT_KEYS: [&str; 22] = [
+        "First", "Next", "Prev", "Last", "Parent", "Kids", "Count", "Dest", "A", "D", "S", "Title", "Names", "Dests", "Contents", "Resources",
+        "Annots", "Font", "XObject", "Type", "Filter", "DecodeParms",
+    ];
+    for (id, o) in &doc.objects {
+        if id.0 >= 90 {
+            continue;
+        }
+        let dd = match o {
+            Object::Dictionary(dd) => dd,
+            Object::Stream(s) => &s.dict,
+            _ => continue,
+        };
+        for k in ABSENT_KEYS {
+            if !dd.has(k.as_bytes()) {
+                out.push(Site { obj: id.0, path: vec![format!("/{}", k)], insert: true });
+            }
+        }
     }
     out
 }
@@ -215,7 +237,7 @@ fn slot<'a>(o: &'a mut Object, path: &[String]) -> Option<&'a mut Object> {
     }
 }
 
-const N_FIXED_SHAPES: usize = 18;
+const N_FIXED_SHAPES: usize = 25;
 
 /// Shapes 0..17 are fixed values; shape 100+k is a reference to skeleton object k.
 fn shape(code: usize, site: &Site) -> Option<Object> {
@@ -238,12 +260,34 @@ fn shape(code: usize, site: &Site) -> Option<Object> {
         15 => arr(vec![r(site.obj.max(1)), r(site.obj.max(1))]),
         16 => d(vec![("Type", name("Pages")), ("Kids", arr(vec![r(site.obj.max(1))])), ("Count", Object::Integer(1 << 40)), ("First", r(site.obj.max(1))), ("Next", r(site.obj.max(1)))]),
         17 => return None, // 17 = remove the entry (handled by the caller)
+        18 => Object::String(vec![0xfe, 0xff, 0x00, 0x48, 0x00], StringFormat::Literal), // odd-length UTF-16BE
+        19 => Object::String(vec![0xff, 0xfe, 0x41], StringFormat::Hexadecimal),         // odd-length UTF-16LE
+        20 => Object::String(vec![0xef, 0xbb, 0xbf, 0xff, 0xc0], StringFormat::Literal), // invalid UTF-8 after the mark
+        21 => Object::String(vec![], StringFormat::Literal),
+        22 => Object::Name(vec![]),
+        23 => Object::Real(-1e30),
+        24 => arr(vec![arr(vec![]), d(vec![]), Object::Null, r(site.obj.max(1))]),
         k if k >= 100 => r((k - 100) as u32),
         _ => return None,
     })
 }
 
 fn apply(doc: &mut Document, site: &Site, code: usize) -> bool {
+    if site.insert {
+        let Some(v) = shape(code, site) else { return false };
+        let key = site.path[0].trim_start_matches('/').as_bytes().to_vec();
+        return match doc.objects.get_mut(&(site.obj, 0)) {
+            Some(Object::Dictionary(dd)) => {
+                dd.set(key, v);
+                true
+            }
+            Some(Object::Stream(st)) => {
+                st.dict.set(key, v);
+                true
+            }
+            _ => false,
+        };
+    }
     if code == 17 {
         // remove the key / element
         if site.path.is_empty() {
@@ -525,6 +569,13 @@ fn shape_label(code: usize) -> String {
         15 => "[self self]".into(),
         16 => "pages-like-dict-pointing-at-self".into(),
         17 => "removed".into(),
+        18 => "string-utf16be-odd".into(),
+        19 => "string-utf16le-odd".into(),
+        20 => "string-utf8-bad".into(),
+        21 => "string-empty".into(),
+        22 => "name-empty".into(),
+        23 => "real-huge-negative".into(),
+        24 => "[[] <<>> null self]".into(),
         k => format!("ref-to-obj{}", k - 100),
     }
 }
@@ -601,7 +652,7 @@ fn main() {
     }
     run.rule(
         "well-formed skeleton document containing everything the queries read; a site is every dictionary entry / array element / whole object \
-         of the skeleton (superset of the keys the query code reads); 1 deviation: every site x 18 value shapes (nine kinds, extremes, arrays, \
+         of the skeleton (superset of the keys the query code reads); 1 deviation: every site x 25 value shapes (also inserted under each of 22 query-relevant keys a dictionary lacks) (nine kinds, extremes, arrays, \
          dangling / cyclic / wrong-kind references, entry removed) plus every site x a reference to every object of the skeleton (all link cycles); \
          2 deviations (thorough): all pairs over the sites named by a key the query code reads; every case runs all 22 query groups in an isolated \
          worker; non-trivial = the mutation changes the skeleton (site exists); cases distinct by construction",
@@ -652,10 +703,10 @@ fn main() {
         let key_sites: Vec<usize> = sites
             .iter()
             .enumerate()
-            .filter(|(_, s)| s.path.len() == 1 && s.path[0].starts_with('/'))
+            .filter(|(_, s)| s.path.len() == 1 && s.path[0].starts_with('/') && !s.insert)
             .map(|(i, _)| i)
             .collect();
-        let pair_shapes = [0usize, 4, 8, 9, 11, 12, 13, 16, 17];
+        let pair_shapes = [0usize, 4, 8, 9, 11, 12, 13, 16, 17, 18];
         for (a, sa) in key_sites.iter().enumerate() {
             for sb in key_sites.iter().skip(a + 1) {
                 for ca in pair_shapes {
